@@ -54,6 +54,11 @@ std::vector<VariablePtr>::const_iterator Component::ComponentImpl::findVariable(
 
 std::vector<ResetPtr>::const_iterator Component::ComponentImpl::findReset(const ResetPtr &reset) const
 {
+    // Prefer the object itself; only fall back on a structurally equal reset.
+    auto result = std::find(mResets.begin(), mResets.end(), reset);
+    if (result != mResets.end()) {
+        return result;
+    }
     return std::find_if(mResets.begin(), mResets.end(),
                         [=](const ResetPtr &r) -> bool { return r->equals(reset); });
 }
